@@ -35,7 +35,7 @@ if __name__ != "__main__":
     from lib.core import cbytes
 
 PROPERTY = "C16"
-GEN: list = []
+GEN: list = ["dbadd"]
 RULE = (
     "a case = (store class, workloads of 2-4 writers [quick; up to 8 thorough] drawn from a small pool of shared "
     "contents incl. the empty file, duplicated contents inside one tree, nested paths, sometimes identical trees "
@@ -191,7 +191,8 @@ def _hook(ev, args):
         a = [x for x in args[:2] if isinstance(x, str)]
         if not any(x.startswith(s.prefix) or x == s.root for x in a):
             return
-        rel = tuple("" if x == s.root else (x[len(s.prefix):] if x.startswith(s.prefix) else "<outside>") for x in a)
+        rel = tuple("" if x == s.root else (x[len(s.prefix):] if x.startswith(s.prefix) else
+                                            ("<outside>" + x if ev == "os.link" else "<outside>")) for x in a)
         extra = ()
         if ev == "os.chmod":
             extra = (args[1],)
@@ -467,7 +468,7 @@ def _run_state_dir(ctx):
 
 
 
-def _writer_body(cls, store, ws, st, verify=None):
+def _writer_body(cls, store, ws, st, verify=None, hardlink=False, modify=None):
     from dvc_objects.fs.local import localfs
 
     from dvc_data.hashfile.build import build
@@ -478,7 +479,15 @@ def _writer_body(cls, store, ws, st, verify=None):
     cfg = _POOL.get("cfg")
     kw = {"checksum_jobs": cfg["jobs"]} if cfg is not None else {}
     staging, _meta, obj = build(odb, ws, localfs, "md5", **kw)
-    res = transfer(staging, odb, {obj.hash_info}, shallow=False, **({"verify": True} if verify == "call" else {}))
+    if modify:
+        # perturbation: the SOURCE is rewritten after it was staged (what was hashed is no longer what is there)
+        for rel, data in modify.items():
+            with open(os.path.join(ws, *rel.split("/")), "wb") as f:
+                f.write(data)
+    tkw = {"verify": True} if verify == "call" else {}
+    if hardlink:
+        tkw["hardlink"] = True
+    res = transfer(staging, odb, {obj.hash_info}, shallow=False, **tkw)
     failed = sorted(h.value for h in res.failed)
     rs = _RESTAGE.get(ws)
     if rs:
@@ -495,11 +504,11 @@ def _writer_body(cls, store, ws, st, verify=None):
     return obj.oid, failed
 
 
-def _thread_main(s: Sched, tid, cls, store, ws, st, results, verify=None):
+def _thread_main(s: Sched, tid, cls, store, ws, st, results, verify=None, hardlink=False, modify=None):
     _tl.tid = tid
     try:
         s.at_event(tid, ("sync", "start"))
-        results[tid] = ("ok",) + _writer_body(cls, store, ws, st, verify)
+        results[tid] = ("ok",) + _writer_body(cls, store, ws, st, verify, hardlink, modify)
     except Abort:
         results[tid] = ("abort",)
     except BaseException as exc:  # noqa: BLE001
@@ -510,8 +519,9 @@ def _thread_main(s: Sched, tid, cls, store, ws, st, results, verify=None):
 
 
 def run_threads(ctx, cls, wkls, schedule, prepop=None, free=False, shared_state=True, _root=None, pool=None,
-                verify=None, restage=None):
-    """returns dict(trace, grants, results, store, rows, leftovers, root)"""
+                verify=None, restage=None, hardlink=None, modify=None):
+    """returns dict(trace, grants, results, store, rows, leftovers, root).
+    hardlink[i]: writer i transfers with hardlink=True; modify[i]: {rel: bytes} rewritten between build and transfer"""
     global _S
     from dvc_data.hashfile.state import State
 
@@ -553,7 +563,8 @@ def run_threads(ctx, cls, wkls, schedule, prepop=None, free=False, shared_state=
     results: dict = {}
     ths = [threading.Thread(target=_thread_main, daemon=True,
                             args=(s, i, cls, store, os.path.join(root, f"w{i}"), states[i % len(states)], results,
-                                  (verify or [None] * n)[i]))
+                                  (verify or [None] * n)[i], (hardlink or [False] * n)[i],
+                                  (modify or [None] * n)[i]))
            for i in range(n)]
     _S = s
     if pool:
@@ -652,15 +663,28 @@ def audit_rows(st_dir, store):
     return out, integrity
 
 
-def judge(cls, wkls, run, prepop=None, earlier=None):
+def judge(cls, wkls, run, prepop=None, earlier=None, modify=None):
     """oracle: the property on the real outcome.  returns [(signature, what)].
     earlier[i] = an earlier version of writer i's tree that it staged too (its objects are requested as well)"""
     problems = []
     n = len(wkls)
     if run.get("aborted"):
         problems.append(("C16:no-progress", "the writers stopped making progress (deadlock)"))
+    # a writer whose source was rewritten after staging may be REFUSED (the rewritten ids and its directory
+    # object reported failed): it then promises nothing about the store; it must not raise, and whatever it
+    # does, the store must stay correctly named and the other writers must fully succeed
+    refused = set()
+    for i, m in enumerate(modify or []):
+        r = run["results"].get(i)
+        if m and r and r[0] == "ok" and r[2]:
+            man = manifest(wkls[i])
+            allowed = {md5hex(wkls[i][rel]) for rel in m} | {list(man)[-1]}
+            if set(r[2]) <= allowed:
+                refused.add(i)
     for i in range(n):
         r = run["results"].get(i)
+        if i in refused:
+            continue
         if r is None or r[0] != "ok":
             problems.append((f"C16:writer-failed:{r[1] if r and len(r) > 1 else 'no-result'}",
                              f"writer {i} did not succeed: {r}"))
@@ -676,6 +700,9 @@ def judge(cls, wkls, run, prepop=None, earlier=None):
             problems.append(("C16:directory-id", f"writer {i} staged {r[1]}, its tree is {doid}"))
         if earlier:
             man = {**manifest(earlier[i]), **man}
+        if i in refused:
+            want.update(man)
+            continue
         for oid, data in man.items():
             want[oid] = data
             got = objs.get(oid)
@@ -712,7 +739,7 @@ def judge(cls, wkls, run, prepop=None, earlier=None):
 # abstraction of the raw trace into model steps
 
 
-def abstract(cls, wkls, raw):
+def abstract(cls, wkls, raw, modify=None):
     """-> (steps [(tid, ('Step', args...))], notes).  Unknown events become ('Unknown', text) which the
     caller reports (the model has no such step)."""
     steps = []
@@ -792,6 +819,22 @@ def abstract(cls, wkls, raw):
                 steps.append((tid, ("RenameTmp", x, tmp_id(tid, e[3]))))
             else:
                 unknown.append(f"rename {e[2]} -> {e[3]}")
+        elif kind == "os.link":
+            b = classify(e[3]) if len(e) > 3 else ("other", "")
+            src = e[2][len("<outside>"):] if isinstance(e[2], str) and e[2].startswith("<outside>") else None
+            content = None
+            if b[0] == "obj" and src:
+                m = re.search(r"/w(\d+)/(.*)$", src)
+                if m and int(m.group(1)) == tid:
+                    rel = m.group(2).replace(os.sep, "/")
+                    wl = files_of(wkls[tid])
+                    if rel in wl:
+                        content = ((modify[tid] or {}) if modify else {}).get(rel, wl[rel])
+            if content is None:
+                unknown.append(f"link {e[2:]}")
+            else:
+                steps.append((tid, ("Link", b[1], content)))
+                placed.add((tid, b[1]))
         elif kind == "os.chmod":
             c = classify(e[2])
             if c[0] == "obj" and e[3] == 0o444:
@@ -895,6 +938,8 @@ def vcase_term(cls, wkls, steps, objs, rows, leftovers, failed, prepop=None):
     def vt(st):
         if st[0] in ("VerifyDrop", "VerifyBad"):
             return f"{st[0]} {nm.ref(st[1])}"
+        if st[0] == "Link":
+            return f"VLink {nm.ref(st[1])} {nm.content(st[2])}"
         return f"Base ({step_term(nm, st)})"
 
     tr = "[" + ";\n  ".join(f"({tid}%nat, {vt(s)})" for tid, s in steps) + "]"
@@ -980,10 +1025,12 @@ def overlap(wkls):
     return shared
 
 
-def scheduled_case(ctx, cls, wkls, schedule, style="given", prepop=None, pool=None, verify=None):
-    run = run_threads(ctx, cls, wkls, schedule, prepop=prepop, pool=pool, verify=verify)
-    problems, objs, leftovers, rows = judge(cls, wkls, run, prepop)
-    steps, unknown = abstract(cls, wkls, run["trace"])
+def scheduled_case(ctx, cls, wkls, schedule, style="given", prepop=None, pool=None, verify=None, hardlink=None,
+                   modify=None):
+    run = run_threads(ctx, cls, wkls, schedule, prepop=prepop, pool=pool, verify=verify, hardlink=hardlink,
+                      modify=modify)
+    problems, objs, leftovers, rows = judge(cls, wkls, run, prepop, modify=modify)
+    steps, unknown = abstract(cls, wkls, run["trace"], modify)
     gh = hashlib.sha1(bytes(run["grants"])).hexdigest()
     case = {"cls": cls, "workloads": hexwl(wkls), "schedule": run["grants"], "style": style}
     if prepop:
@@ -992,6 +1039,21 @@ def scheduled_case(ctx, cls, wkls, schedule, style="given", prepop=None, pool=No
         case["pool"] = pool
     if verify:
         case["verify"] = verify
+    if hardlink and any(hardlink):
+        case["hardlink"] = hardlink
+        # the reflink attempt of ANOTHER writer truncates the inode a hard-linked object shares with its source
+        for i, wl in enumerate(wkls):
+            if hardlink[i]:
+                for rel, b in files_of(wl).items():
+                    want_b = (modify[i] or {}).get(rel, b) if modify else b
+                    try:
+                        with open(os.path.join(run["root"], f"w{i}", *rel.split("/")), "rb") as f:
+                            if f.read() != want_b:
+                                ctx.count("observation:hardlinked-source-file-changed-by-a-probe")
+                    except OSError:
+                        pass
+    if modify and any(modify):
+        case["modify"] = [None if not m else {k: v.hex() for k, v in m.items()} for m in modify]
     impl.rm_rf(run["root"])
     return case, run, problems, steps, unknown, objs, leftovers, rows, gh
 
@@ -1001,7 +1063,7 @@ def run(ctx):
     t_start = time.time()
     _STATS.clear()
     n_sched = ctx.n(210, 3000)
-    budget = 24 if ctx.tier == "quick" else 300
+    budget = 16 if ctx.tier == "quick" else 300
     cases = []
     seen_sched = set()
     unknown_total = []
@@ -1030,6 +1092,12 @@ def run(ctx):
         # writer 0's post-add verification runs while the object is ABSENT (after writer 1's probe unlink, before
         # its re-creation): add() swallows the FileNotFoundError - writer 0 succeeds, nothing is dropped
         g_absent = [int(c) for c in "11000000000000111100000000111111111111"]
+        # hardlink=True + verify=True with a source rewritten after staging: writer 0 first, to completion; then two
+        # writers requesting the same content from pristine sources
+        out = scheduled_case(ctx, "local", [{"a": b"shared", "b": b"also"}, {"a": b"shared"}, {"x": b"shared", "b": b"also"}],
+                             [0] * 200 + [1, 2] * 100, "corpus-modified-source", verify=["call", "call", None],
+                             hardlink=[True, False, True], modify=[{"a": b"REWRITTEN after staging"}, None, None])
+        _register(ctx, out, cases, seen_sched, unknown_total)
         for cls, g in (("base", g_base), ("local", g_local), ("base", g_lost), ("base", g_absent)):
             out = scheduled_case(ctx, cls, two, g, "corpus-verify", verify=["call", None])
             _register(ctx, out, cases, seen_sched, unknown_total)
@@ -1058,7 +1126,32 @@ def run(ctx):
             else:
                 k = list(man)[0]  # a writer without files: its only object, the empty listing, is already there
             prepop = {k: man[k]}
-        out = scheduled_case(ctx, cls, wkls, schedule, style, prepop, pool, verify)
+        hardlink = modify = None
+        if i % 16 == 11 and pool is None:
+            # hardlink=True writers (with and without verify=True), pristine sources
+            hardlink = [rng.random() < 0.6 for _ in range(n)]
+            hardlink[rng.randrange(n)] = True
+            if VERIFY_STREAM and verify is None and rng.random() < 0.5:
+                verify = [rng.choice(["call", None]) for _ in range(n)]
+        elif VERIFY_STREAM and i % 16 == 13 and pool is None and prepop is None:
+            # one writer (verify=True, hardlink=True) whose SOURCE is rewritten after staging reaches the local
+            # store first and runs to completion; then the others, who request the same content from pristine
+            # sources.  It must be refused (or harmless); the store must stay correctly named.
+            cls = "local"
+            wkls = [w for w in gen_workloads(rng, n)]
+            rel0 = sorted(files_of(wkls[0]) or {"a": b"shared"})[0]
+            wkls[0] = {**files_of(wkls[0]), rel0: files_of(wkls[0]).get(rel0, b"shared") or b"shared"}
+            victim = wkls[0][rel0]
+            for j in range(1, n):
+                if rng.random() < 0.7 or j == 1:
+                    wkls[j] = {**wkls[j], "m%d" % j: victim}
+            modify = [None] * n
+            modify[0] = {rel0: b"rewritten-after-staging-" + bytes([65 + rng.randrange(20)]) * rng.randint(1, 9)}
+            verify = ["call"] + [rng.choice(["call", None]) for _ in range(n - 1)]
+            hardlink = [True] + [rng.random() < 0.4 for _ in range(n - 1)]
+            schedule = [0] * 400 + schedule
+            style = "modified-source-first"
+        out = scheduled_case(ctx, cls, wkls, schedule, style, prepop, pool, verify, hardlink, modify)
         _register(ctx, out, cases, seen_sched, unknown_total)
     t_trials = time.time() - t_start
     ctx.extra["schedules_distinct"] = len(seen_sched)
@@ -1118,6 +1211,10 @@ def classify_verify(steps):
             probers.setdefault(st[1], set()).add(tid)
         elif k == "Remove":
             state.pop(st[1], None)
+        elif k == "Link":
+            if st[1] not in state:  # os.link on an existing name is skipped
+                state[st[1]] = "full" if md5hex(st[2]) == st[1].split(".")[0] else "mislinked"
+                probers[st[1]] = set()
         elif k == "VerifyBad":
             touched.add((tid, st[1]))
             if state.get(st[1]) == "probe" and probers.get(st[1], set()) - {tid}:
@@ -1202,7 +1299,7 @@ def _register(ctx, out, cases, seen_sched, unknown_total):
     for _tid, s in steps:
         kinds[s[0]] = kinds.get(s[0], 0) + 1
     for k, v in kinds.items():
-        if k not in ("VerifyDrop", "VerifyBad"):
+        if k not in ("VerifyDrop", "VerifyBad", "Link"):
             ctx.count("step:" + k, v)
     if "prepop" in case:
         ctx.count("prepopulated")
@@ -1211,12 +1308,20 @@ def _register(ctx, out, cases, seen_sched, unknown_total):
     if any(not files_of(wl) for wl in wkls):
         ctx.count("empty-directory-writers:scheduled")
     # how often the interesting races were actually driven (replayed on the abstract steps)
-    present, protected = set(), set()
+    present, protected, linked = set(), set(), set()
     for tid, s in steps:
         if s[0] == "Rename":
             present.add(s[2])
             protected.discard(s[2])
+        elif s[0] == "Link":
+            ctx.count("step:Link")
+            if s[1] not in present:
+                present.add(s[1])
+                linked.add(s[1])
         elif s[0] == "ProbeOpen":
+            if s[1] in present and s[1] in linked:
+                ctx.count("race:probe-truncates-a-hardlinked-object")
+            linked.discard(s[1])
             if s[1] in present:
                 ctx.count("race:probe-truncates-a-complete-object")
                 if s[1] in protected:
@@ -1242,8 +1347,12 @@ def _register(ctx, out, cases, seen_sched, unknown_total):
     unknown_total.extend(unknown)
     term = None
     prepop = {k: bytes.fromhex(v) for k, v in case.get("prepop", {}).items()}
-    if "verify" in case:
-        ctx.count("verify:scheduled")
+    if "hardlink" in case:
+        ctx.count("hardlink:scheduled")
+    if "modify" in case:
+        ctx.count("source-modified-after-staging:scheduled")
+    if "verify" in case or "hardlink" in case:
+        ctx.count("verify:scheduled" if "verify" in case else "hardlink-only:scheduled")
         ctx.count("step:VerifyBad", sum(1 for _t, st in steps if st[0] == "VerifyBad"))
         ctx.count("step:VerifyDrop", sum(1 for _t, st in steps if st[0] == "VerifyDrop"))
         if not unknown:
@@ -1402,8 +1511,15 @@ def replay_case(ctx, case):
                 "violates": bool(problems)}
     else:
         prepop = {k: bytes.fromhex(v) for k, v in case.get("prepop", {}).items()} or None
+        modify = case.get("modify")
+        if modify:
+            modify = [None if not m else {k: bytes.fromhex(v) for k, v in m.items()} for m in modify]
         run_ = run_threads(ctx, cls, wkls, case.get("schedule", []), prepop=prepop, pool=case.get("pool"),
-                           verify=case.get("verify"))
+                           verify=case.get("verify"), hardlink=case.get("hardlink"), modify=modify)
+        problems, objs, leftovers, rows = judge(cls, wkls, run_, prepop, modify=modify)
+        return {"results": {str(k): v for k, v in run_["results"].items()}, "problems": problems,
+                "store": {o: (len(b), oct(m)) for o, (b, m) in objs.items()}, "leftovers": leftovers,
+                "grants": run_["grants"], "violates": bool(problems)}
     problems, objs, leftovers, rows = judge(cls, wkls, run_)
     return {"results": {str(k): v for k, v in run_["results"].items()}, "problems": problems,
             "store": {o: (len(b), oct(m)) for o, (b, m) in objs.items()}, "leftovers": leftovers,
